@@ -29,13 +29,13 @@ CORR = " Tie: the executable model and the real code (in-process, -tags verif) a
 CHECKS.update({
     "C01": chk("Proof. decode_never_panics: for every profile satisfying the decidable predicate ProfileWF — which the regenerated profile does (gen_wf, kernel evaluation on every run) — every mode (Decode, DecodeHeader, DecodeHeaderAndFileID, CheckIntegrity), every input, package state, option set and read schedule gives a result or an error, never a panic outcome (a Hoare logic over the record-phase programs with the invariant: a File is attached, every stored definition passed validateFieldDef, the byte counter only grows; applyField_good does the reflection case analysis); chained_never_panics for DecodeChained; no over-read (C10). Every loop of the model is structural or fuel-bounded and the fuel is proved never to end the record loop. Modelled, not verified: that the model's panic sites are all of the real code's — checked by the correspondence run under recover with a per-case timeout." + CORR,
                "Lean 4 proof (weakest-precondition logic over decoder programs, reflection case analysis under a kernel-checked well-formedness predicate) + differential correspondence incl. single-field and size-extreme sweeps", "6/C01"),
-    "C02": chk("Proof. For every definition base type, both byte orders and every struct-field width the profile allows, parseFitField stores exactly the value the wire bytes denote (signed_field_denotes, unsigned_field_denotes, string_field_denotes, widen_signed/unsigned); byte_parser_is_record_machine (Framing): on the serialisation of any list of items that fit the live definitions, the byte-level record loop arrives at exactly the state of the record machine, which applies these functions to each field's own bytes and skips developer fields — so neighbouring fields and messages are undisturbed." + CORR,
+    "C02": chk("Proof. For every definition base type, both byte orders and every struct-field width the profile allows, parseFitField stores exactly the value the wire bytes denote (signed_field_denotes, unsigned_field_denotes, string_field_denotes, widen_signed/unsigned); byte_parser_is_record_machine (Framing): on the serialisation of any list of items that fit the live definitions, the byte-level record loop arrives at exactly the state of the record machine, which applies these functions to each field's own bytes and skips developer fields — so neighbouring fields and messages are undisturbed; whole_file_framing (header of any of the three layouts, file_id prelude, records, file CRC); absent_fields_stay_invalid (every struct field that no field number of the definition designates holds, in the decoded message, the constructor's value — its type's invalid value), field_writes_own_position, unknown_field_skipped." + CORR,
                "Lean 4 proof of per-field value semantics + framing theorem by induction over items + differential correspondence", "6/C02"),
     "C03": chk("Proof: route_spec — folding the container's add over any message sequence leaves in each slot exactly the (expanded) messages of the type the slot holds, in stream order (slice) or the last one (pointer), other types have no effect; common_first; kernel-checked facts over the regenerated tables: RoutersWF, init_rejects (all 256 file-type values), accessor_exact, container_of_type_injective." + CORR,
                "Lean 4 proof by induction over the message list + decide over the regenerated 256-entry tables + differential correspondence of covering interleavings", "6/C03"),
-    "C10": chk("Proof. run_refines (buffered interpreter = list-consuming specification for every program and reader), chunk_independent, never_overreads, consumes_exactly / decode_consumes_exactly (success ⇒ exactly header + data + 2 bytes consumed and pulled, under any read schedule), decode_ignores_tail, chained_eq_chain_over_bytes (DecodeChained = decoding file after file over the byte list), chained_concat (the chain over a concatenation of valid files is the files decoded one by one), chained_clean_end." + CORR,
+    "C10": chk("Proof. run_refines (buffered interpreter = list-consuming specification for every program and reader), chunk_independent, never_overreads, consumes_exactly / decode_consumes_exactly (success ⇒ exactly header + data + 2 bytes consumed and pulled, under any read schedule), decode_ignores_tail, chained_eq_chain_over_bytes (DecodeChained = decoding file after file over the byte list), chained_concat (the chain over a concatenation of valid files is the files decoded one by one), chained_clean_end, header_fileid_agree (on a well-formed frame DecodeHeader reports the frame's header, DecodeHeaderAndFileID that header and the message of the first data record, and the File Decode returns carries the same header; a later file_id record replaces the file_id Decode reports, so the run compares the two on streams with one file_id record)." + CORR,
                "Lean 4 refinement proof (induction over programs and read schedules) + accounting lemmas + differential correspondence over chunk schedules behind a counting reader", "6/C10"),
-    "C11": chk("Proof. short_input_never_succeeds / cut_is_error (any stream cut before the end of the frame it declares makes Decode and CheckIntegrity fail, for both ways of ending and any read schedule), header_cut_is_error (every entry point), chained_cut_is_error (DecodeChained never returns silently unless the input ends exactly on a file boundary; a reader error is never swallowed), failed reads map to unexpected-EOF / reader error / format error, early exits are never successes; partial_file_on_cut (a frame cut inside a record, ended by EOF or a reader error under any read schedule: Decode returns an error, never panics, and the File it returns has exactly the file_id, file_creator, timestamp_correlation, container and slots the record machine holds after the complete records — nothing of the cut record; proved through DProg.bind / loop_step: the loop is one record then the loop, ExitsKeep: every early exit of one record carries the File as it was, and cut_record: a strict prefix of a record's bytes cannot complete it). Partial files are also compared with the model's on every cut and fault offset by the harness, and an oracle checks that the File does not depend on whether the reader delivers its error with the last bytes or in a call of its own." + CORR,
+    "C11": chk("Proof. short_input_never_succeeds / cut_is_error (any stream cut before the end of the frame it declares makes Decode and CheckIntegrity fail, for both ways of ending and any read schedule), header_cut_is_error (every entry point), chained_cut_is_error (DecodeChained never returns silently unless the input ends exactly on a file boundary; a reader error is never swallowed), failed reads map to unexpected-EOF / reader error / format error, early exits are never successes; partial_file_on_cut (a frame cut inside a record, ended by EOF or a reader error under any read schedule: Decode returns an error, never panics, and the File it returns has exactly the file_id, file_creator, timestamp_correlation, container and slots the record machine holds after the complete records — nothing of the cut record; proved through DProg.bind / loop_step: the loop is one record then the loop, ExitsKeep: every early exit of one record carries the File as it was, and cut_record: a strict prefix of a record's bytes cannot complete it; all three header layouts); chained_partial_on_cut (DecodeChained reaching such a frame returns the files decoded so far followed by exactly that partial File). Partial files are also compared with the model's on every cut and fault offset by the harness, and an oracle checks that the File does not depend on whether the reader delivers its error with the last bytes or in a call of its own." + CORR,
                "Lean 4 proof (exact-consumption and conservation lemmas over the specification interpreter, refinement for the buffered run) + exhaustive cut/fault enumeration per stream", "6/C11"),
     "C12": chk("Proof: compressed_rule (5-bit offset with 32 s rollover = tsSpec), compressed_keeps_inv, run_accumulates (any run of compressed records = scan of tsSpec), datetime_decode, explicit_rebases, reference_only_from_timestamp_field, local_wallclock, no_reference_skips — about the functions the decoder model and the record machine call for every time field and compressed header." + CORR,
                "Lean 4 proof (omega on modular arithmetic, induction over offset lists) + differential correspondence of timestamp sequences", "6/C12"),
@@ -43,7 +43,7 @@ CHECKS.update({
                "Lean 4 proof (list update lemmas, decide over 256 header bytes) + differential correspondence of redefinition interleavings", "6/C13"),
     "C15": chk("Proof: gen_wf — kernel evaluation of the decidable well-formedness predicate over every entry of the regenerated tables (distinct struct index of the Go type the base type/array flag/kind call for, constructor value = that type's invalid value, sizes fit one byte, every struct field named by exactly one entry, known ⇒ type+constructor+row, container members known, field 253 is a date_time), with readable projections. SDK assignment: every (message, field number) shared with the newest bundled SDK workbook must designate the struct field of the workbook's name and type (harness, own xlsx reader); the 23 entries newer than that workbook are compared with a pinned snapshot." + CORR,
                "Lean 4 decide +kernel over tables regenerated by reflection on every run + workbook / snapshot comparison + differential correspondence of every profile entry", "6/C15"),
-    "C16": chk("Proof: options_transparent (error, panic, bytes pulled, File apart from the two lists, accumulators are identical under every option set — the decoder program does not take the options), logger_irrelevant, lists_only_when_asked, bump_counts (reported count = number of occurrences counted), bump_keys_nodup, unknown_lists_sorted (insertion sort is sorted and a permutation)." + CORR,
+    "C16": chk("Proof: options_transparent (error, panic, bytes pulled, File apart from the two lists, accumulators are identical under every option set — the decoder program does not take the options), logger_irrelevant, lists_only_when_asked, bump_counts (reported count = number of occurrences counted), bump_keys_nodup, unknown_lists_sorted (insertion sort is sorted and a permutation), unknown_counts_exact (whole files, any of the three header layouts: after a successful Decode the unknown-message counter of n is the number of data records whose live definition names the unknown message n, and the unknown-field counter of (message, field) is the number of records of that known message that carried that unlisted field number — stepItem_unk / stepItems_unk / runItems_unk over the record machine, decode_frame_ok for the bytes)." + CORR,
                "Lean 4 proof (structure of finalize, counting and sorting lemmas) + differential correspondence under all 8 option sets", "6/C16"),
     "C18": chk("Proof with recorded findings. expand_eq_spec: for every message of any type whose component sources hold the kinds of value the decoder stores (typedB, decidable), the statement-by-statement model of the generated expandComponents equals the generic, rule-driven interpretation of the profile's component rules with exactly the deviations D10 (distance half of compressed_speed_distance loses its top nibble) and D11 (total_cycles / accumulated_power accumulators with mask 0) switched on — message and accumulators alike, for record (record_eq), event (event_eq), lap, session and segment_lap; nothing else separates the code from the rules. Also invalid_source_untouched, valid_source_copied, csd_speed_slice, csd_distance_partial, accumulate_spec, gear_bytes, score_halves, containers_expand, and counterexample theorems for the known findings D10, D11, D12 (accumulator lifetime). The specification is also replayed per decoded message on every run and every deviation must be one of the recorded ones." + CORR,
                "Lean 4 proof + counterexample theorems + rule-driven specification replay + differential correspondence incl. source-value sweeps", "6/C18"),
